@@ -562,6 +562,41 @@ impl<'a> Tr<'a> {
                 }
             }
         }
+        // a `&mut self` method of a generic type parameter (`assoc <name> fnmut(..)`): a function parameter of the
+        // translated definition that returns the new receiver next to the result
+        if let Expr::MethodCall(m) = e {
+            let name = m.method.to_string();
+            if self.t.assoc_mut.contains(&name) {
+                if let Ok(recv) = self.pure(&m.receiver, env, None) {
+                    if let Ty::Param(g) = &recv.ty {
+                        let key = format!("{}::{}", g, name);
+                        if let Some(v) = env.get(&key).cloned() {
+                            if let Ty::Fn(ptys, rty) = &v.ty {
+                                if ptys.len() != m.args.len() + 1 {
+                                    return Err(unsupported(e, &format!("call of `{}` with {} arguments", key, m.args.len())));
+                                }
+                                let ret = match &**rty {
+                                    Ty::Tuple(ts) if ts.len() == 2 => ts[1].clone(),
+                                    _ => return Err(unsupported(e, "fnmut assoc type")),
+                                };
+                                let (root, path) = self.target_of(&m.receiver)?;
+                                let mut a = vec![recv.s.clone()];
+                                for (x, pt) in m.args.iter().zip(ptys.iter().skip(1)) {
+                                    let av = self.pure(x, env, Some(pt))?;
+                                    join(&av.ty, pt).map_err(|mm| unsupported(e, &mm))?;
+                                    a.push(av.s);
+                                }
+                                let st = self.fresh("it");
+                                let x = self.fresh("nx");
+                                let rest = k(self, Val { s: x.clone(), ty: ret })?;
+                                let rest = self.write_place(&root, &path, env, &st, &rest, e)?;
+                                return Ok(Some(let_pat(&[st, x], &app(&v.coq, &a), &rest)));
+                            }
+                        }
+                    }
+                }
+            }
+        }
         let (f, recv) = match self.resolve_effectful(e, env)? {
             Some(x) => x,
             None => return Ok(None),
@@ -600,7 +635,12 @@ impl<'a> Tr<'a> {
                 (Some(r), Some(re)) => {
                     a.push(r.s.clone());
                     if f.self_kind == SelfKind::Mut {
-                        writebacks.push(self.target_of(re)?);
+                        if matches!(crate::expr::strip_parens(re), Expr::Call(_) | Expr::MethodCall(_) | Expr::Struct(_)) {
+                            // a `&mut self` method on a temporary: the updated temporary is dropped
+                            writebacks.push(("@@TEMP@@".to_string(), vec![]));
+                        } else {
+                            writebacks.push(self.target_of(re)?);
+                        }
                     }
                 }
                 _ => {
@@ -649,6 +689,9 @@ impl<'a> Tr<'a> {
         }
         let mut rest = k(self, ret_val)?;
         for ((root, path), tmp) in writebacks.iter().zip(temps.iter()).rev() {
+            if root == "@@TEMP@@" {
+                continue;
+            }
             rest = self.write_place(root, path, env, tmp, &rest, e)?;
         }
         if f.fuel {
